@@ -16,7 +16,8 @@ from . import c01
 PROPERTY = "C17"
 RULE = (
     "cases are grammar-conforming path-data strings split at 1..4 command boundaries into pieces, each later "
-    "piece applied with a generated operator (p = p + b, p += b, p.parse(b), Move + b); (pairs) all 20x20 command "
+    "piece applied with a generated operator (p = p + b, p += b, p.parse(b), Move + b), in a third of the cases with "
+    "the growing path measured (length, point, bbox) before some steps and compared on those measurements at the end; (pairs) all 20x20 command "
     "pairs with the split between the pair x3 templates x3 operators, enumerated exhaustively; (concat) Path + "
     "Path and Path + Shape. Non-trivial = some later piece begins with a state-dependent command (relative, "
     "smooth, close, H/V); distinct by pieces+operators."
@@ -28,7 +29,8 @@ ASSUMPTIONS = [
     "precision of the arc writer (KF-ARC-D-6DIGITS, C07) and everything else at 1e-9",
 ]
 TOLERANCES = {"point": "1e-12 * scale", "concat-shape-point": "2e-11 * scale (12 significant digits of the d() text)", "concat-shape-arc": "1e-5 * scale (six significant digits of radii/rotation)"}
-MANDATORY_LABELS = {"quick": ["op:add", "op:iadd", "op:parse", "op:moveadd", "concat:path", "concat:shape"], "thorough": ["op:add", "op:iadd", "op:parse", "op:moveadd", "concat:path", "concat:shape"]}
+MANDATORY_LABELS = {"quick": ["op:add", "op:iadd", "op:parse", "op:moveadd", "concat:path", "concat:shape", "observed-before-step"]}
+MANDATORY_LABELS["thorough"] = MANDATORY_LABELS["quick"]
 
 STATE_DEP = set("mlhvcsqtazZHVSTa")
 
@@ -58,7 +60,13 @@ def decode_split(d):
         prev = c
     pieces.append(text[prev:])
     ops = [d.choice(["add", "iadd", "parse"]) for _ in pieces[1:]]
-    return {"pieces": pieces, "ops": ops}
+    case = {"pieces": pieces, "ops": ops}
+    if d.chance(1, 3):
+        # the growing path is measured (length, point, bounding box) before some of the steps
+        case["observe"] = [d.bool() for _ in ops]
+        if not any(case["observe"]):
+            case["observe"][d.below(len(ops))] = True
+    return case
 
 
 SHAPES = ["rect", "rrect", "circle", "ellipse", "line", "polyline", "polygon"]
@@ -130,6 +138,31 @@ def same_paths(o, got, want, S, what, arc_tol=None, rel=1e-12):
     return None
 
 
+def observe(p, S):
+    """what a user can measure on a path: length, points along it, bounding box (or the exception type raised)"""
+    out = []
+    for f in (lambda: p.length(error=1e-4 * S, min_depth=3), lambda: lib.xy(p.point(0.3)), lambda: lib.xy(p.point(0.8)), lambda: p.bbox()):
+        try:
+            out.append(f())
+        except Exception as e:
+            if core.library_frame(e.__traceback__) is None:
+                raise
+            out.append("raises %s" % type(e).__name__)
+    return out
+
+
+def same_observations(a, b, S):
+    for x, y in zip(a, b):
+        if isinstance(x, str) or isinstance(y, str) or x is None or y is None:
+            if x != y:
+                return False
+            continue
+        xs, ys = (x, y) if isinstance(x, (tuple, list)) else ((x,), (y,))
+        if len(xs) != len(ys) or any(abs(u - v) > 1e-9 * max(S, abs(u), abs(v)) for u, v in zip(xs, ys)):
+            return False
+    return True
+
+
 def check(case):
     se = lib.L()
     o = core.Obs()
@@ -152,8 +185,11 @@ def check(case):
         o.label("after:M first:%s" % pieces[1].lstrip()[:1])
     else:
         p = se.Path(pieces[0])
-        for piece, op in zip(pieces[1:], ops):
+        for step, (piece, op) in enumerate(zip(pieces[1:], ops)):
             first = piece.lstrip()[:1]
+            if case.get("observe") and case["observe"][step]:
+                o.label("observed-before-step")
+                observe(p, S)
             last_kind = lib.kind_of(p[-1]) if len(p) else "-"
             o.label("op:%s" % op, "after:%s first:%s" % (last_kind, first))
             if first in STATE_DEP:
@@ -171,6 +207,10 @@ def check(case):
     bad = same_paths(o, p, want, S, "append")
     if bad is not None:
         return bad
+    if case.get("observe"):
+        got_obs, want_obs = observe(p, S), observe(want, S)
+        if not same_observations(got_obs, want_obs, S):
+            return o.violation("append:measured-history", "the path was measured between the steps %r %r; afterwards [length, point(0.3), point(0.8), bbox] = %r, on Path(joined text) %r" % (pieces, ops, got_obs, want_obs))
     o.nontrivial = statedep
     return o.ok()
 
